@@ -31,17 +31,48 @@ pub fn register_op(addr: &str, host: &str, nodes: &[String; 2], index: usize) ->
     serde_json::json!({"proxy_address": addr, "nodes": [nodes[0], nodes[1]], "host": host, "index": index})
 }
 
+#[derive(Clone, Copy, Debug, PartialEq, Eq)]
+pub enum BrokerVerdict {
+    Exec,
+    /// the call never reaches the broker
+    LoseRequest,
+    /// the broker executes the call, the coordinator sees a failed request
+    LoseReply,
+}
+
+/// Asynchronous gate for coordinator -> broker calls (who, what).  The future may do arbitrary
+/// work before answering (or never answer = coordinator crash).
+pub type BrokerHook = Arc<dyn Fn(String, String) -> Pin<Box<dyn Future<Output = BrokerVerdict> + Send>> + Send + Sync>;
+
+/// Record of one commit_migration call that reached the broker.
+#[derive(Clone, Debug)]
+pub struct CommitRec {
+    pub who: String,
+    pub task: String,
+    pub src_proxy: String,
+    pub dst_proxy: String,
+    pub ok: bool,
+    pub code: String,
+    pub state_changed: bool,
+}
+
 /// Calls of the coordinator to the broker, optionally recorded / failed by the harness.
 pub struct SimBroker {
     pub broker: Arc<Broker>,
+    pub who: String,
     pub calls: Mutex<Vec<String>>,
     /// when Some(n): the n-th call from now fails (request lost), then the fault is cleared
     pub fail_at: Mutex<Option<usize>>,
+    pub hook: Mutex<Option<BrokerHook>>,
+    pub commits: Arc<Mutex<Vec<CommitRec>>>,
 }
 
 impl SimBroker {
     pub fn new(broker: Arc<Broker>) -> Arc<SimBroker> {
-        Arc::new(SimBroker { broker, calls: Mutex::new(vec![]), fail_at: Mutex::new(None) })
+        Arc::new(SimBroker { broker, who: "coordinator".into(), calls: Mutex::new(vec![]), fail_at: Mutex::new(None), hook: Mutex::new(None), commits: Arc::new(Mutex::new(vec![])) })
+    }
+    pub fn view(&self, who: &str) -> Arc<SimBroker> {
+        Arc::new(SimBroker { broker: self.broker.clone(), who: who.to_string(), calls: Mutex::new(vec![]), fail_at: Mutex::new(None), hook: Mutex::new(self.hook.lock().unwrap().clone()), commits: self.commits.clone() })
     }
     fn enter(&self, what: String) -> bool {
         self.calls.lock().unwrap().push(what);
@@ -58,35 +89,58 @@ impl SimBroker {
             None => true,
         }
     }
+    async fn gate(&self, what: String) -> BrokerVerdict {
+        if !self.enter(what.clone()) {
+            return BrokerVerdict::LoseRequest;
+        }
+        let h = self.hook.lock().unwrap().clone();
+        match h {
+            Some(h) => h(self.who.clone(), what).await,
+            None => BrokerVerdict::Exec,
+        }
+    }
+}
+
+fn once_list<'s, T: Send + 's, F>(f: F) -> Pin<Box<dyn Stream<Item = Result<T, MetaDataBrokerError>> + Send + 's>>
+where
+    F: Future<Output = Result<Vec<T>, MetaDataBrokerError>> + Send + 's,
+{
+    Box::pin(stream::once(f).flat_map(|r| match r {
+        Ok(v) => stream::iter(v.into_iter().map(Ok).collect::<Vec<_>>()),
+        Err(e) => stream::iter(vec![Err(e)]),
+    }))
 }
 
 impl MetaDataBroker for SimBroker {
     fn get_cluster_names<'s>(&'s self) -> Pin<Box<dyn Stream<Item = Result<ClusterName, MetaDataBrokerError>> + Send + 's>> {
-        if !self.enter("get_cluster_names".into()) {
-            return Box::pin(stream::iter(vec![Err(MetaDataBrokerError::RequestFailed)]));
-        }
-        let names = futures::executor::block_on(self.broker.svc.get_cluster_names(None, None)).unwrap_or_default();
-        Box::pin(stream::iter(names.into_iter().map(Ok)))
+        once_list(async move {
+            if self.gate("get_cluster_names".into()).await != BrokerVerdict::Exec {
+                return Err(MetaDataBrokerError::RequestFailed);
+            }
+            Ok(self.broker.svc.get_cluster_names(None, None).await.unwrap_or_default())
+        })
     }
     fn get_cluster<'s>(&'s self, name: ClusterName) -> Pin<Box<dyn Future<Output = Result<Option<Cluster>, MetaDataBrokerError>> + Send + 's>> {
         Box::pin(async move {
-            if !self.enter(format!("get_cluster {}", name)) {
+            if self.gate(format!("get_cluster {}", name)).await != BrokerVerdict::Exec {
                 return Err(MetaDataBrokerError::RequestFailed);
             }
             self.broker.svc.get_cluster_by_name(name.as_str()).await.map_err(|_| MetaDataBrokerError::RequestFailed)
         })
     }
     fn get_proxy_addresses<'s>(&'s self) -> Pin<Box<dyn Stream<Item = Result<String, MetaDataBrokerError>> + Send + 's>> {
-        if !self.enter("get_proxy_addresses".into()) {
-            return Box::pin(stream::iter(vec![Err(MetaDataBrokerError::RequestFailed)]));
-        }
-        let mut v = futures::executor::block_on(self.broker.svc.get_proxy_addresses(None, None)).unwrap_or_default();
-        v.sort();
-        Box::pin(stream::iter(v.into_iter().map(Ok)))
+        once_list(async move {
+            if self.gate("get_proxy_addresses".into()).await != BrokerVerdict::Exec {
+                return Err(MetaDataBrokerError::RequestFailed);
+            }
+            let mut v = self.broker.svc.get_proxy_addresses(None, None).await.unwrap_or_default();
+            v.sort();
+            Ok(v)
+        })
     }
     fn get_proxy<'s>(&'s self, address: String) -> Pin<Box<dyn Future<Output = Result<Option<Proxy>, MetaDataBrokerError>> + Send + 's>> {
         Box::pin(async move {
-            if !self.enter(format!("get_proxy {}", address)) {
+            if self.gate(format!("get_proxy {}", address)).await != BrokerVerdict::Exec {
                 return Err(MetaDataBrokerError::RequestFailed);
             }
             self.broker.svc.get_proxy_by_address(&address).await.map_err(|_| MetaDataBrokerError::RequestFailed)
@@ -94,44 +148,75 @@ impl MetaDataBroker for SimBroker {
     }
     fn add_failure<'s>(&'s self, address: String, reporter_id: String) -> Pin<Box<dyn Future<Output = Result<(), MetaDataBrokerError>> + Send + 's>> {
         Box::pin(async move {
-            if !self.enter(format!("add_failure {} {}", address, reporter_id)) {
+            let v = self.gate(format!("add_failure {} {}", address, reporter_id)).await;
+            if v == BrokerVerdict::LoseRequest {
                 return Err(MetaDataBrokerError::RequestFailed);
             }
-            self.broker.svc.add_failure(address, reporter_id).await.map_err(|_| MetaDataBrokerError::RequestFailed)
+            let r = self.broker.svc.add_failure(address, reporter_id).await.map_err(|_| MetaDataBrokerError::RequestFailed);
+            if v == BrokerVerdict::LoseReply {
+                return Err(MetaDataBrokerError::RequestFailed);
+            }
+            r
         })
     }
     fn get_failures<'s>(&'s self) -> Pin<Box<dyn Stream<Item = Result<String, MetaDataBrokerError>> + Send + 's>> {
-        if !self.enter("get_failures".into()) {
-            return Box::pin(stream::iter(vec![Err(MetaDataBrokerError::RequestFailed)]));
-        }
-        let mut v = futures::executor::block_on(self.broker.svc.get_failures()).unwrap_or_default();
-        v.sort();
-        Box::pin(stream::iter(v.into_iter().map(Ok)))
+        once_list(async move {
+            if self.gate("get_failures".into()).await != BrokerVerdict::Exec {
+                return Err(MetaDataBrokerError::RequestFailed);
+            }
+            let mut v = self.broker.svc.get_failures().await.unwrap_or_default();
+            v.sort();
+            Ok(v)
+        })
     }
     fn get_failed_proxies<'s>(&'s self) -> Pin<Box<dyn Stream<Item = Result<String, MetaDataBrokerError>> + Send + 's>> {
-        if !self.enter("get_failed_proxies".into()) {
-            return Box::pin(stream::iter(vec![Err(MetaDataBrokerError::RequestFailed)]));
-        }
-        let v = self.broker.failed_proxies();
-        Box::pin(stream::iter(v.into_iter().map(Ok)))
+        once_list(async move {
+            if self.gate("get_failed_proxies".into()).await != BrokerVerdict::Exec {
+                return Err(MetaDataBrokerError::RequestFailed);
+            }
+            Ok(self.broker.failed_proxies())
+        })
     }
 }
 
 impl MetaManipulationBroker for SimBroker {
     fn replace_proxy<'s>(&'s self, failed_proxy_address: String) -> Pin<Box<dyn Future<Output = Result<Option<Proxy>, MetaManipulationBrokerError>> + Send + 's>> {
         Box::pin(async move {
-            if !self.enter(format!("replace_proxy {}", failed_proxy_address)) {
+            let v = self.gate(format!("replace_proxy {}", failed_proxy_address)).await;
+            if v == BrokerVerdict::LoseRequest {
                 return Err(MetaManipulationBrokerError::RequestFailed);
             }
-            self.broker.svc.replace_failed_proxy(failed_proxy_address).await.map_err(|_| MetaManipulationBrokerError::ResourceNotAvailable)
+            let r = self.broker.svc.replace_failed_proxy(failed_proxy_address).await.map_err(|_| MetaManipulationBrokerError::ResourceNotAvailable);
+            if v == BrokerVerdict::LoseReply {
+                return Err(MetaManipulationBrokerError::RequestFailed);
+            }
+            r
         })
     }
     fn commit_migration<'s>(&'s self, meta: MigrationTaskMeta) -> Pin<Box<dyn Future<Output = Result<(), MetaManipulationBrokerError>> + Send + 's>> {
         Box::pin(async move {
-            if !self.enter(format!("commit_migration {}", meta.slot_range.get_range_list())) {
+            let task = format!("{} {:?}", meta.slot_range.get_range_list(), meta.slot_range.tag.get_migration_meta().map(|m| (m.epoch, m.src_proxy_address.clone(), m.dst_proxy_address.clone())));
+            let (src_proxy, dst_proxy) = meta.slot_range.tag.get_migration_meta().map(|m| (m.src_proxy_address.clone(), m.dst_proxy_address.clone())).unwrap_or_default();
+            let v = self.gate(format!("commit_migration {}", meta.slot_range.get_range_list())).await;
+            if v == BrokerVerdict::LoseRequest {
                 return Err(MetaManipulationBrokerError::RequestFailed);
             }
-            self.broker.svc.commit_migration(meta).await.map_err(|e| {
+            let before = self.broker.snapshot();
+            let r = self.broker.svc.commit_migration(meta).await;
+            let after = self.broker.snapshot();
+            self.commits.lock().unwrap().push(CommitRec {
+                who: self.who.clone(),
+                task,
+                src_proxy,
+                dst_proxy,
+                ok: r.is_ok(),
+                code: r.as_ref().err().map(|e| e.to_code().to_string()).unwrap_or_default(),
+                state_changed: before != after,
+            });
+            if v == BrokerVerdict::LoseReply {
+                return Err(MetaManipulationBrokerError::RequestFailed);
+            }
+            r.map_err(|e| {
                 if e.to_code() == "MIGRATION_TASK_NOT_FOUND" {
                     MetaManipulationBrokerError::InvalidReply
                 } else {
@@ -178,6 +263,11 @@ impl ClusterSim {
     /// A coordinator view onto an existing world (proxies already created) with another broker.
     pub fn with_world(world: World, counts: &[usize], cfg: &BrokerCfg, opts: &ProxyOpts, broker: Broker) -> ClusterSim {
         ClusterSim { world, broker: SimBroker::new(Arc::new(broker)), cfg: cfg.clone(), proxies: ip_layout(counts), opts: opts.clone() }
+    }
+
+    /// The same system seen by another coordinator (own call identity, shared broker and world).
+    pub fn view(&self, who: &str) -> ClusterSim {
+        ClusterSim { world: self.world.clone(), broker: self.broker.view(who), cfg: self.cfg.clone(), proxies: self.proxies.clone(), opts: self.opts.clone() }
     }
 
     pub fn apply(&self, op: &Op) -> String {
